@@ -201,6 +201,27 @@ Example C18_lock_example :
   match nth_error (s_th s) 0 with Some th => rel_dist (t_pc th) = 4 | None => False end.
 Proof. vm_compute. repeat split; reflexivity. Qed.
 
+(* ---------------------------------------------------------------- runs after reset_socket_hub() *)
+(* several runs in one process, a reset before each: the last run is a run from the initial
+   state, whatever the earlier runs (or an arbitrary state s0) left behind, so every theorem
+   above applies to it; instance: exactly-once / FIFO relative to what was sent in THAT run *)
+Theorem C18_after_reset : after_reset_stmt.
+Proof. exact after_reset. Qed.
+Theorem C18_fifo_after_reset : fifo_after_reset_stmt.
+Proof. exact fifo_after_reset. Qed.
+
+Example C18_after_reset_example :
+  (* the first run leaves message 21 queued and both endpoints connected; after the reset a
+     non-blocking receive of the new receiver finds the channel empty, then gets 1 *)
+  let first := ([((0, 1, 0), false, [Connect; Send 21]); ((1, 0, 0), false, [Connect])], repeat 0 6 ++ repeat 1 5 ++ repeat 0 12) in
+  let second := ([((0, 1, 0), false, [Connect; Send 1]); ((1, 0, 0), false, [Connect; Recv true; Recv false])],
+                 repeat 1 6 ++ repeat 0 5 ++ repeat 1 6 ++ repeat 0 12 ++ repeat 1 12) in
+  let s1 := run_history Fixed (init []) [first] in
+  let s2 := run_history Fixed (init []) [first; second] in
+  qget (1, 0, 0) (s_q s1) = [21] /\ s_open s1 = [(0, 1, 0); (1, 0, 0)] /\
+  map (fun th => rev (t_out th)) (s_th s2) = [[ROk; ROk]; [ROk; REmpty; RMsg 1]] /\ qget (1, 0, 0) (s_q s2) = [].
+Proof. vm_compute. repeat split; reflexivity. Qed.
+
 (* ---------------------------------------------------------------- broadcast channel *)
 (* One endpoint owning several sockets (Net/Bcast.v: BroadcastChannelBySockets over thread
    sockets; any number of broadcast endpoints and plain thread-socket parties, any remote
@@ -261,3 +282,5 @@ Print Assumptions C18_bc_fifo_exact.
 Print Assumptions C18_bc_recv_tag.
 Print Assumptions C18_bc_sent_log.
 Print Assumptions C18_bc_send_all.
+Print Assumptions C18_after_reset.
+Print Assumptions C18_fifo_after_reset.
